@@ -24,6 +24,7 @@ import (
 
 	v1 "github.com/fatedier/frp/pkg/config/v1"
 	"github.com/fatedier/frp/pkg/util/tcpmux"
+	"github.com/fatedier/frp/pkg/util/verifhook"
 	"github.com/fatedier/frp/pkg/util/vhost"
 )
 
@@ -58,6 +59,7 @@ func (tmgc *TCPMuxGroupCtl) Listen(
 		tmgc.groups[group] = tcpMuxGroup
 	}
 	tmgc.mu.Unlock()
+	verifhook.At("group.tcpmux.after_lookup", group)
 
 	switch v1.TCPMultiplexerType(multiplexer) {
 	case v1.TCPMultiplexerHTTPConnect:
@@ -154,6 +156,7 @@ func (tmg *TCPMuxGroup) worker() {
 		if err != nil {
 			return
 		}
+		verifhook.At("group.tcpmux.before_handoff", tmg.group)
 		err = gerr.PanicToError(func() {
 			tmg.acceptCh <- c
 		})
